@@ -263,6 +263,18 @@ def mcs_mol(rep, rel):
     fi = rep.f(rel, "MCSMatcher._find_mcs_mol")
     A, B = fi.params[1], fi.params[2]
     pm = parent_map(fi.node)
+    # a LIST of attribute names is expected wherever a parameter is called `edge_attrs` / `node_attrs` (it is iterated): handing it one name (a field or
+    # variable called `edge_attr` / `node_attr`, a string literal) makes the callee iterate the characters - no such attribute exists on either bond, so
+    # every bond matches every bond
+    for c in [c for c in walk_local(fi.node, into_nested=True) if isinstance(c, ast.Call)]:
+        for pname in ("edge_attrs", "node_attrs", "edge_attr_keys", "node_attr_keys"):
+            v = kwarg(c, pname)
+            if v is None:
+                continue
+            single = (isinstance(v, ast.Constant) and isinstance(v.value, str)) or \
+                (isinstance(v, (ast.Name, ast.Attribute)) and norm(v).split(".")[-1].lstrip("_") in ("edge_attr", "node_attr", "edge_attribute", "node_attribute"))
+            if single:
+                rep.ob("O12.1", "R2", fi, False, c, f"`{pname}` receives one attribute name (`{norm(v)}`) where a list of names is iterated: bond orders are not compared", node=c)
     ss = M.sites(fi)
     rep.need("R2", len(ss), 1, "GraphMatcher in _find_mcs_mol")
     s = ss[0]
